@@ -31,7 +31,7 @@ BopOk(e) == /\ e.uab = SUnion(e.a, e.b) /\ e.uba = SUnion(e.b, e.a)
             /\ e.con = SContains(e.a, e.p) /\ e.conu = SContains(SUnion(e.a, e.b), e.p)
             /\ e.iab = SIntersects(e.a, e.b) /\ e.iba = e.iab
 RevOk(e) == e.r1 = RevSeq(e.ls) /\ e.r2 = e.ls
-OrientOk(e) == e.o = Orient(e.r) /\ e.orev = -e.o
+OrientOk(e) == e.o = Orient(e.r) /\ e.orev = -e.o /\ e.ofar = e.o /\ e.ofarrev = -e.o   \* also far from the origin
 Ok(e, NILOK) == CASE e.k = "clone" -> CloneOk(e, NILOK)
                   [] e.k = "equal" -> EqualOk(e)
                   [] e.k = "equal3" -> Equal3Ok(e)
@@ -39,6 +39,8 @@ Ok(e, NILOK) == CASE e.k = "clone" -> CloneOk(e, NILOK)
                   [] e.k = "bop" -> BopOk(e)
                   [] e.k = "rev" -> RevOk(e)
                   [] e.k = "orient" -> OrientOk(e)
+                  \* two values that differ in one coordinate by one unit in the last place (or a relative 1e-14, 1e-12): not equal
+                  [] e.k = "equlp" -> (e.differs = 1 => (~e.ab /\ ~e.ba)) /\ e.aa
                   [] OTHER -> FALSE
 Init == l = 1 /\ bad = {} /\ alt = {}
 Next == /\ l <= Len(Trace) /\ l' = l + 1
